@@ -6,7 +6,7 @@
 //! All budgets are logical or CPU-time quantities; worker death (allocation failure under the
 //! address-space limit, CPU watchdog) is attributed to the in-flight case by the parent.
 use crate::layouts::build_stone;
-use crate::malformed::{apply_edit, edit_class, edit_label, group_values, Edit, GROUPS};
+use crate::malformed::{apply_edit, cross_blowup_queries, edit_class, edit_label, group_values, Edit, GROUPS};
 use crate::mutate::{self, enumerate, get, Worker};
 use crate::resmon;
 use crate::tamper::honest_for_build;
@@ -20,7 +20,9 @@ pub fn run(args: &Args) -> Report {
     let thorough = args.thorough();
     let repo = args.str("repo", "/repo");
     let mut worker = Worker::new(args);
-    resmon::set_address_space_limit(args.u64("as_limit_gb", 8) << 30);
+    if args.u64("as_limit_gb", 8) > 0 {
+        resmon::set_address_space_limit(args.u64("as_limit_gb", 8) << 30);
+    }
     resmon::start_cpu_watchdog(args.u64("cpu_limit_s", 90) as f64);
     let mut rep = Report::new();
     let base_rng = Rng::new(seed).fork("resource").fork(vcomp::build_hash().name()).fork(build_stone());
@@ -85,6 +87,7 @@ pub fn run(args: &Args) -> Report {
         }
         edits.extend(leaf_edits.iter().cloned());
         edits.extend(groups.iter().cloned());
+        edits.extend(cross_blowup_queries());
         let n_combo = if thorough { 2000 } else { 200 };
         for _ in 0..n_combo {
             edits.push(Edit::Multi(vec![rng.pick(&groups).clone(), rng.pick(&leaf_edits).clone()]));
